@@ -79,8 +79,17 @@ def natToF64Bits (m : Nat) : Nat :=
 def i64ToF64Bits (i : Int) : Nat :=
   if i == 0 then 0 else if i < 0 then two63 + natToF64Bits i.natAbs else natToF64Bits i.natAbs
 
-/-- mirrors `float_equals_int` -/
-def floatEqInt (f : Nat) (i : Int) : Bool := !fNaN f && !fInf f && floatEq f (i64ToF64Bits i)
+/-- `i as f64` loses nothing: at most 53 significant bits -/
+def i64ExactInF64 (i : Int) : Bool :=
+  let m := i.natAbs
+  let e := log2f 64 m
+  e ≤ 52 || m % 2 ^ (e - 52) == 0
+
+/-- mirrors `float_equals_int` = `compare_int_float(i, f) == Equal`: the finite double *is* the
+    integer (exact comparison, no lossy `i as f64`): it equals the rounded integer and the rounding
+    was exact -/
+def floatEqInt (f : Nat) (i : Int) : Bool :=
+  !fNaN f && !fInf f && i64ExactInF64 i && floatEq f (i64ToF64Bits i)
 
 /-- `cypher_equals l r == Bool(true)` on scalars (Null on either side gives Null, i.e. not true) -/
 def cyEqV : OV → OV → Bool
